@@ -1343,6 +1343,7 @@ async fn run_bmp(cfg0: &PCfg, evs: &[PEv]) -> (Vec<PObs>, bool, bool) {
     let mut downs = vec![down];
     if !wait_until(Duration::from_millis(2500), || listening(&ports).contains(&(cfg0.listen as usize % 3))).await { task.abort(); return (vec![], false, true); }
     let mut cur = *cfg0;
+    let mut nreload = 0usize;
     let mut conns: Vec<Option<TcpStream>> = vec![];
     let mut obs = vec![];
     let counter = |text: &str, name: &str| -> u64 { text.lines().filter(|l| l.starts_with(name) && !l.starts_with('#')).filter_map(|l| l.rsplit(' ').next()?.parse::<u64>().ok()).sum() };
@@ -1398,11 +1399,19 @@ async fn run_bmp(cfg0: &PCfg, evs: &[PEv]) -> (Vec<PObs>, bool, bool) {
                 let _ = new_gate.process_until(async { let _ = l.connect(false).await; }).await;
                 downs.push(l);
                 let sent = agent.reconfigure(rotonda::units::Unit::BmpTcpIn(parsed), new_gate).await.is_ok();
-                agent = new_agent;
-                let rep = UpstreamLinkReport::new();
-                let _ = agent.report_links(rep.clone()).await;
-                let r2 = rep.clone();
-                let acked = wait_until(Duration::from_secs(4), || r2.ready()).await;
+                // handled once the unit's gate has moved to the new command channel: the old one is closed then
+                let old_agent = std::mem::replace(&mut agent, new_agent);
+                let mut acked = wait_until(Duration::from_secs(4), || old_agent.is_terminated()).await;
+                // The manager sends ReportLinks to every unit some time after a load. A router handler keeps only the
+                // last gate status it saw while waiting for a message, so whether its `Reconfiguring` arm runs depends
+                // on whether a ReportLinks came in between: every second reload of a case is followed by one.
+                nreload += 1;
+                if nreload % 2 == 0 {
+                    let rep = UpstreamLinkReport::new();
+                    let _ = agent.report_links(rep.clone()).await;
+                    let r2 = rep.clone();
+                    acked = wait_until(Duration::from_secs(4), || r2.ready()).await && acked;
+                }
                 if new.listen != cur.listen { wait_until(Duration::from_secs(4), || listening(&ports) == vec![new.listen as usize % 3]).await; }
                 tokio::time::sleep(Duration::from_millis(15)).await;
                 cur = *new;
@@ -1451,6 +1460,8 @@ fn bmp_case(cfg0: &PCfg, evs: &[PEv]) -> Outcome {
     // ---- reference: after a Reconfigure has been handled everything is judged by the new configuration, sessions stay
     let mut cur = *cfg0;
     let mut live: Vec<(usize, u32)> = vec![]; // (connection, ingress id)
+    // routers whose pending read may have been started under another tracing mode (a reload changed it since their last message)
+    let mut stale: Vec<u32> = vec![];
     let mut nconn = 0usize;
     let mut tnext = 0u32;
     let mut reloads = 0;
@@ -1475,8 +1486,12 @@ fn bmp_case(cfg0: &PCfg, evs: &[PEv]) -> Outcome {
                             1 => if *t == 0 { "m1t-".to_string() } else { format!("m1t{t}") },
                             _ => if *t == 0 { let n = tnext; tnext = (tnext + 1) % 256; format!("m1t{n}") } else { format!("m1t{t}") },
                         };
+                        let was_stale = stale.contains(id);
+                        stale.retain(|x| x != id);
                         if o.tok != want {
-                            fails.push(format!("reconf:bmp-tcp-in:tracing_mode event {i} {}: expected {want} got {} (tracing_mode in force: {})", show_pev(ev), o.tok, MODES[cur.mode as usize % 3]));
+                            // the listed finding is exactly: first message after a changed mode, carrying a trace id
+                            let sig = if was_stale && *t > 0 { "tracing_mode" } else { "tracing_mode:not-in-force" };
+                            fails.push(format!("reconf:bmp-tcp-in:{sig} event {i} {}: expected {want} got {} (tracing_mode in force: {})", show_pev(ev), o.tok, MODES[cur.mode as usize % 3]));
                             // follow the real counter
                             if let Some(n) = o.tok.split('t').nth(1).and_then(|x| x.parse::<u32>().ok()) { if cur.mode % 3 == 2 && *t == 0 { tnext = (n + 1) % 256; } }
                         }
@@ -1493,7 +1508,8 @@ fn bmp_case(cfg0: &PCfg, evs: &[PEv]) -> Outcome {
                     let what = format!("event {i} {} (changed: {})", show_pev(ev), if changed.is_empty() { "nothing".into() } else { changed.join("+") });
                     if o.stored.0 != Some(new.tmpl as usize % 3) { fails.push(format!("reconf:bmp-tcp-in:router_id_template {what}: the unit holds template {}", opt_s(&o.stored.0))); }
                     if o.stored.1 != format!("f{}", new.filter) { fails.push(format!("reconf:bmp-tcp-in:filter_name {what}: the unit holds {}", o.stored.1)); }
-                    if o.stored.2 != Some(new.mode as usize % 3) { fails.push(format!("reconf:bmp-tcp-in:tracing_mode {what}: the unit holds mode {}", opt_s(&o.stored.2))); }
+                    if o.stored.2 != Some(new.mode as usize % 3) { fails.push(format!("reconf:bmp-tcp-in:tracing_mode:not-stored {what}: the unit holds mode {}", opt_s(&o.stored.2))); }
+                    if new.mode != cur.mode { for (_, id) in &live { if !stale.contains(id) { stale.push(*id); } } }
                     if o.listening != vec![new.listen as usize % 3] { fails.push(format!("reconf:bmp-tcp-in:listen {what}: listening on slots {:?}", o.listening)); }
                     // established sessions are kept
                     let have: Vec<u32> = o.info_at.iter().map(|x| x.0).collect();
@@ -1503,14 +1519,15 @@ fn bmp_case(cfg0: &PCfg, evs: &[PEv]) -> Outcome {
                 }
             }
             // what holds after every event
-            if o.list_at != vec![cur.path as usize % 2] { fails.push(format!("reconf:bmp-tcp-in:http_api_path event {i} {}: the router list answers at {}, the path in force is {}", show_pev(ev), if o.list_at.is_empty() { "no path".to_string() } else { join(o.list_at.iter().map(|p| PATHS[*p]), " and ") }, PATHS[cur.path as usize % 2])); }
-            else if let Some((id, at, _)) = o.info_at.iter().find(|(_, at, _)| *at != vec![cur.path as usize % 2]) { fails.push(format!("reconf:bmp-tcp-in:http_api_path event {i} {}: the page of router {id} answers at {:?}, the path in force is {}", show_pev(ev), at, PATHS[cur.path as usize % 2])); }
+            if o.list_at != vec![cur.path as usize % 2] { fails.push(format!("reconf:bmp-tcp-in:{} event {i} {}: the router list answers at {}, the path in force is {}", if o.list_at == vec![cfg0.path as usize % 2] { "http_api_path" } else { "http_api_path:endpoints-inconsistent" }, show_pev(ev), if o.list_at.is_empty() { "no path".to_string() } else { join(o.list_at.iter().map(|p| PATHS[*p]), " and ") }, PATHS[cur.path as usize % 2])); }
+            else if let Some((id, at, _)) = o.info_at.iter().find(|(_, at, _)| *at != vec![cur.path as usize % 2]) { fails.push(format!("reconf:bmp-tcp-in:http_api_path:endpoints-inconsistent event {i} {}: the page of router {id} answers at {:?}, the path in force is {}", show_pev(ev), at, PATHS[cur.path as usize % 2])); }
         }
     }
     let imp = join(obs.iter().map(show_pobs), " ");
     for f in &fails { notes.push(format!("oracle-{}", f.split_whitespace().next().unwrap_or(""))); }
     // one finding per setting; the rarer mechanism first
-    fails.sort_by_key(|f| if f.contains(":tracing_mode") { 0 } else if f.contains(":http_api_path") { 2 } else { 1 });
+    let known = |f: &String| f.starts_with("reconf:bmp-tcp-in:tracing_mode ") || f.starts_with("reconf:bmp-tcp-in:http_api_path ");
+    fails.sort_by_key(|f| if !known(f) { 0 } else if f.contains(":tracing_mode") { 1 } else { 2 });
     fails.dedup_by_key(|f| f.split_whitespace().next().unwrap_or("").to_string());
     let oracle = fail_line(&mut fails);
     Outcome { case: show_pcase(cfg0, evs), imp, oracle, nontrivial: reloads >= 1, notes, discard }
